@@ -1,7 +1,9 @@
 import PvModel.Props.C12
+import PvModel.Props.C12Rel
 #print axioms Pv.C12_def
 #print axioms Pv.C12_empty
 #print axioms Pv.C12_single
 #print axioms Pv.C12_answers_tree
 #print axioms Pv.C12_order_irrelevant
 #print axioms Pv.C12_reverse
+#print axioms Pv.C12_rel_everyg
